@@ -33,7 +33,7 @@ def classify(case, kind):
 def run(ctx):
     return vlib.standard_check(
         ctx,
-        targets=["C07/Properties.vo", "C07/Corr.vo"],
+        targets=["C07/Corr.vo", "C07/Properties.vo"],
         pinned="C07/Pinned.v",
         binname="c07",
         gen=gen,
